@@ -425,13 +425,22 @@ SELECTED += [
 ]
 TRACKED += [("packaging.specifiers", "SpecifierSet")]
 X5_IMPORT = "PkgModel.PySet"
+# x5: Requirement (C08, C10)
+SELECTED += [
+    ("Requirement.__init__", "packaging.requirements", "Requirement.__init__"),
+    ("Requirement._iter_parts", "packaging.requirements", "Requirement._iter_parts"),
+    ("Requirement.__str__", "packaging.requirements", "Requirement.__str__"),
+    ("Requirement.__hash__", "packaging.requirements", "Requirement.__hash__"),
+    ("Requirement.__eq__", "packaging.requirements", "Requirement.__eq__"),
+]
+TRACKED += [("packaging.requirements", "Requirement")]
 # `Specifier(...)` is a run-time primitive backed by the scanner `S.parseSpec` (PySet.mkSpecifier) — but only while the
 # source of `Specifier.__init__` is the text that scanner mirrors: sha256 over the ast of the function, doc string aside
 PRIMITIVE_INITS[("packaging.specifiers", "Specifier", "__init__")] = "PySet.mkSpecifier"
 PRIMITIVE_INIT_GUARDS = {
     ("packaging.specifiers", "Specifier", "__init__"): "7765712a296ab9c28dc295dbfbc4bfb7b070cdddd59678d7b01b9b324803eb6f",
 }
-SYMBOLIC_HASH |= {"packaging.specifiers"}
+SYMBOLIC_HASH |= {"packaging.specifiers", "packaging.requirements"}
 UNICODE_STRIP["packaging.specifiers"] = ("PySet.str_strip", X5_IMPORT)
 # `iter(xs)` of an owned list is accepted where the iterator is handed back at once (checked in `x5_call`)
 CONSUMERS |= {"iter"}
@@ -633,7 +642,7 @@ class Fn:
                         continue                         # self.x = e inside __init__
                     if isinstance(t, ast.Subscript) and isinstance(t.value, ast.Name) and t.value.id in self.locals:
                         continue                         # x3: `name[k] = e`, checked in x3_analyse
-                    if self.x5_attr_store_ok(n, t):
+                    if self.x5_attr_store_ok(n, t) or self.x5_nested_store(n, t):
                         continue                         # x5: `obj.x = e` on a local that holds a fresh object
                     for sub in ast.walk(t):
                         if isinstance(sub, (ast.Subscript, ast.Attribute)) and isinstance(sub.ctx, ast.Store):
@@ -3076,6 +3085,9 @@ class Fn:
         return self._x5_fresh
 
     def x5_attr_store_ok(self, n, t):
+        if isinstance(n, ast.AnnAssign) and n.value is not None and getattr(self, "is_init", False) and isinstance(t, ast.Attribute) \
+                and isinstance(t.value, ast.Name) and t.value.id == self.params()[0]:
+            return True                                       # `self.x: T = e` inside `__init__`
         return isinstance(n, ast.Assign) and isinstance(t, ast.Attribute) and isinstance(t.value, ast.Name) \
             and t.value.id in self.x5_fresh_objects()
 
@@ -3278,6 +3290,13 @@ class Fn:
         return None
 
     def x5_static_class(self, e):
+        if isinstance(e, ast.Attribute) and not (isinstance(e.value, ast.Call) and isinstance(e.value.func, ast.Name) and e.value.func.id == "super"):
+            c = self.static_class(e.value)
+            if c is not None and self.ctx.lookup(c, e.attr) is _MISSING:
+                r = self.ctx.x5_field_class(c, e.attr)
+                if r is not None:
+                    return r[0]
+            return _MISSING
         if not isinstance(e, ast.Name):
             return _MISSING
         loop = self.x5_loop_elem()
@@ -3317,7 +3336,32 @@ class Fn:
         return None
 
     def x5_eqf(self, k):
+        if k == "plain":
+            self.ctx.imports.add("PkgModel.PyRx")
+            return "PyRx.eq_plain"
         return self.eqf_of_class(k)
+
+    def x5_with_terms(self, terms, thunk):
+        """run thunk() with `expr` answering the given Lean terms for the given nodes (by id)"""
+        orig = self.expr
+        def expr(x):
+            if id(x) in terms:
+                return True, terms[id(x)]
+            return orig(x)
+        self.expr = expr
+        try:
+            return thunk()
+        finally:
+            del self.expr
+
+    def x5_optional_field(self, e):
+        """is e an instance field declared `K | None`?"""
+        if isinstance(e, ast.Attribute):
+            c = self.static_class(e.value)
+            if c is not None and self.ctx.lookup(c, e.attr) is _MISSING:
+                r = self.ctx.x5_field_class(c, e.attr)
+                return r is not None and r[1]
+        return False
 
     def x5_hashf(self, k):
         impl = self.ctx.lookup(k, "__hash__")
@@ -3348,6 +3392,17 @@ class Fn:
         if self.x5_set_elem(e) is not None:
             self.x5_use()
             return f"PySet.set_truthy {self.val(e)}"
+        if isinstance(e, (ast.Attribute, ast.Name)):
+            c = self.static_class(e)
+            if c is not None and not self.x5_optional_field(e):
+                if inspect.isfunction(self.ctx.lookup(c, "__bool__")):
+                    raise Unsupported(f"truth value of a {c.__name__} (__bool__)")
+                impl = self.ctx.lookup(c, "__len__")
+                if inspect.isfunction(impl):            # no `__bool__`: the truth value is `len(x) != 0`
+                    if self.ctx.subclasses(c):
+                        raise Unsupported(f"truth value of a {c.__name__} with tracked subclasses")
+                    fn = self.ctx.require(impl)
+                    return f"!(PyVal.eq (← {self.call_selected(fn, [self.val(e)])}) (PyVal.int 0))"
         return None
 
     def x5_expr(self, e):
@@ -3357,6 +3412,19 @@ class Fn:
                 return None
             self.x5_use()
             return False, f"PySet.set_union {self.x5_eqf(k[0])} {self.val(e.left)} {self.val(e.right)}"
+        if isinstance(e, ast.Compare) and len(e.ops) == 1 and isinstance(e.ops[0], ast.Eq) and self.x5_optional_field(e.left) \
+                and not getattr(e, "_x5_guarded", False):
+            # `a == b` where a is `K | None`: None compares by identity, otherwise K's `__eq__`
+            e._x5_guarded = True
+            t, u = self.fresh("l"), self.fresh("r")
+            lv, rv = self.val(e.left), self.val(e.comparators[0])
+            self._extra_bound = getattr(self, "_extra_bound", set()) | {t, u}
+            inner = ast.copy_location(ast.Compare(left=e.left, ops=e.ops, comparators=e.comparators), e)
+            inner._x5_guarded = True
+            saved = (self.val,)
+            p, c = self.x5_with_terms({id(e.left): t, id(e.comparators[0]): u}, lambda: self.compare(inner))
+            body = f"pure {c}" if p else c
+            return False, f"(do let {t} := {lv}; let {u} := {rv}; if PyRt.isNone {t} then pure (PyRt.eq {t} {u}) else {body})"
         if isinstance(e, ast.Compare) and len(e.ops) == 1 and isinstance(e.ops[0], ast.Eq):
             a, b = self.x5_set_elem(e.left), self.x5_set_elem(e.comparators[0])
             if a is not None and b is not None and a == b and a[0] is not None:
@@ -3366,7 +3434,37 @@ class Fn:
             raise Unsupported("a set as an operand of and / or")
         return None
 
+    def x5_nested_store(self, n, t):
+        """`self.f.a = e` inside `__init__`, right after `self.f = K.__new__(K)` in the same block (so `self.f` is fresh)"""
+        if not (getattr(self, "is_init", False) and isinstance(n, ast.Assign) and isinstance(t, ast.Attribute)
+                and isinstance(t.value, ast.Attribute) and isinstance(t.value.value, ast.Name)
+                and t.value.value.id == self.params()[0]):
+            return False
+        for blk in [x for x in ast.walk(self.node) if isinstance(x, (ast.FunctionDef, ast.If, ast.For, ast.While, ast.Try, ast.With))]:
+            for body in (getattr(blk, "body", []), getattr(blk, "orelse", [])):
+                if n in body:
+                    i = body.index(n)
+                    if i > 0 and isinstance(body[i - 1], ast.Assign) and len(body[i - 1].targets) == 1:
+                        pt, pv = body[i - 1].targets[0], body[i - 1].value
+                        return isinstance(pt, ast.Attribute) and isinstance(pt.value, ast.Name) and pt.value.id == t.value.value.id \
+                            and pt.attr == t.value.attr and isinstance(pv, ast.Call) and isinstance(pv.func, ast.Attribute) \
+                            and pv.func.attr == "__new__"
+        return False
+
     def x5_stmt(self, st, ind):
+        if isinstance(st, ast.AnnAssign) and st.value is not None and isinstance(st.target, ast.Attribute) \
+                and self.x5_attr_store_ok(st, st.target):
+            me = lname(st.target.value.id)
+            self.emit(ind, f'{me} ← PyRt.setattr {me} "{st.target.attr}" {self.val(st.value)}')
+            return True
+        if isinstance(st, ast.Assign) and len(st.targets) == 1 and self.x5_nested_store(st, st.targets[0]):
+            t = st.targets[0]
+            me = lname(t.value.value.id)
+            v = self.fresh("v")
+            p, c = self.expr(st.value)
+            self.emit(ind, f"let {v} := {c}" if p else f"let {v} ← {c}")
+            self.emit(ind, f'{me} ← PyRt.setattr {me} "{t.value.attr}" (← PyRt.setattr (← PyRt.getattr {me} "{t.value.attr}") "{t.attr}" {v})')
+            return True
         if isinstance(st, ast.Assign) and len(st.targets) == 1 and self.x5_attr_store_ok(st, st.targets[0]):
             t = st.targets[0]
             v = lname(t.value.id)
@@ -3392,6 +3490,12 @@ class Fn:
                 raise Unsupported("self.__class__(…) of a class with tracked subclasses")
             new = ast.copy_location(ast.Call(func=ast.Name(id=self.owner.__name__, ctx=ast.Load()), args=e.args, keywords=e.keywords), e)
             return self.call(new)
+        # K.__new__(K): an object without attributes
+        if isinstance(f, ast.Attribute) and f.attr == "__new__" and isinstance(f.value, ast.Name) and len(e.args) == 1 and not kws \
+                and isinstance(e.args[0], ast.Name) and e.args[0].id == f.value.id and f.value.id not in self.locals:
+            k = self.globals.get(f.value.id)
+            if inspect.isclass(k) and self.ctx.is_tracked(k) and k.__new__ is object.__new__:
+                return True, f'(PyVal.obj "{k.__name__}" [])'
         # "…{}…".format(*xs)
         if isinstance(f, ast.Attribute) and f.attr == "format" and isinstance(f.value, ast.Constant) and isinstance(f.value.value, str) \
                 and len(e.args) == 1 and isinstance(e.args[0], ast.Starred) and not kws:
@@ -3428,6 +3532,12 @@ class Fn:
                     and len(args[0].args) == 2 and isinstance(args[0].args[0], ast.Name):
                 v = self.globals.get(args[0].args[0].id)
                 k = v if inspect.isclass(v) and self.ctx.is_tracked(v) else None
+            if k is None and isinstance(args[0], ast.BoolOp) and isinstance(args[0].op, ast.Or) and all(
+                    self.elem_simple(v) or (isinstance(v, ast.List) and not v.elts) for v in args[0].values):
+                k = "plain"                                   # `set(xs or [])` with xs a list of strings by annotation
+            if k == "plain":
+                self.ctx.imports.add("PkgModel.PyRx")
+                return False, f'PyRx.set_of "{name}" PyRx.eq_plain {self.val(args[0])}'
             if k is not None and (k.__module__, k.__name__) in X5_HASHED_MEMBERS:
                 self.x5_use()
                 self.ctx.imports.add("PkgModel.PyRx")
@@ -3726,6 +3836,46 @@ class Ctx:
             return found.pop()
         return None
 
+    def x5_field_ann(self, c, attr):
+        """x5: the annotation (ast) of `self.attr: T = …` in `__init__` of class c, with the globals to read it in; else None"""
+        init = self.lookup(c, "__init__")
+        if not inspect.isfunction(init):
+            return None
+        try:
+            fn = ast.parse(textwrap.dedent(inspect.getsource(init))).body[0]
+        except (OSError, SyntaxError):
+            return None
+        me = fn.args.args[0].arg
+        for st in ast.walk(fn):
+            if isinstance(st, ast.AnnAssign) and isinstance(st.target, ast.Attribute) and isinstance(st.target.value, ast.Name) \
+                    and st.target.value.id == me and st.target.attr == attr:
+                ann = st.annotation
+                if isinstance(ann, ast.Constant) and isinstance(ann.value, str):
+                    try:
+                        ann = ast.parse(ann.value, mode="eval").body
+                    except SyntaxError:
+                        return None
+                return ann, init.__globals__
+        return None
+
+    def x5_field_class(self, c, attr):
+        """x5: `(K, optional)` when `__init__` of c declares `self.attr: K` / `K | None` with K a tracked class; else None"""
+        r = self.x5_field_ann(c, attr)
+        if r is None:
+            return None
+        ann, g = r
+        optional = False
+        if isinstance(ann, ast.BinOp) and isinstance(ann.op, ast.BitOr):
+            sides = [x for x in (ann.left, ann.right) if not (isinstance(x, ast.Constant) and x.value is None)]
+            if len(sides) != 1:
+                return None
+            ann, optional = sides[0], True
+        if isinstance(ann, ast.Name):
+            k = g.get(ann.id)
+            if inspect.isclass(k) and self.is_tracked(k):
+                return k, optional
+        return None
+
     def x5_field_set(self, c, attr):
         """x5: `(K,)` when instance attribute `attr` of class c always holds a frozenset / set whose members are instances of
         tracked class K (K None: unknown members) — every `self.attr = …` in `__init__` is `frozenset(map(K, …))` or
@@ -3734,6 +3884,12 @@ class Ctx:
         if (c, attr) in cache:
             return cache[(c, attr)]
         cache[(c, attr)] = None
+        r = self.x5_field_ann(c, attr)
+        if r is not None and isinstance(r[0], ast.Subscript) and isinstance(r[0].value, ast.Name) \
+                and r[0].value.id in ("set", "frozenset", "Set", "FrozenSet") and isinstance(r[0].slice, ast.Name) \
+                and r[0].slice.id in ("str", "int"):
+            cache[(c, attr)] = ("plain",)                     # `self.attr: set[str] = …`: members compared with plain `==`
+            return cache[(c, attr)]
         init = self.lookup(c, "__init__")
         if not inspect.isfunction(init):
             return None
